@@ -59,6 +59,10 @@ type fnCtx struct {
 	implSyms  map[string]types.Type
 	pureDone  map[string]bool
 	inQuant   int
+	noOblige  int
+	noGlobalInit int
+	globalVals map[*ssa.Global]Val
+	globalSyms map[string]*ssa.Global
 }
 
 type loopInfo struct {
@@ -96,6 +100,10 @@ func shortFile(f string) string {
 // oblige records an obligation at the current point and then assumes it.
 func (fc *fnCtx) oblige(st *State, kind, goal string, pos token.Pos, props []string, clause string) {
 	if goal == "true" {
+		return
+	}
+	if fc.noOblige > 0 {
+		fc.assume(st, goal)
 		return
 	}
 	fc.ordinals[kind]++
@@ -168,6 +176,7 @@ func (fc *fnCtx) get(v ssa.Value) Val {
 func (fc *fnCtx) globalRef(g *ssa.Global) string {
 	key := g.Pkg.Pkg.Name() + "." + g.Name()
 	sym := Sym("g!" + key)
+	fc.globalSyms[sym] = g
 	if !fc.sc.Has(sym) {
 		n := fc.g.globalID(g.Pkg.Pkg.Path() + "." + g.Name())
 		fc.sc.Def(sym, "Ref", App("R", IntLit(int64(-n))))
